@@ -36,15 +36,15 @@ A_AST = "CPython's ast module parses /repo exactly as the interpreter does"
 # its subject does.
 FLOORS = {
     "T0": 300, "T1": 30, "T3a": 100, "T3b": 40, "T3c": 30, "T3d": 8, "T3e": 5, "T3f": 6,
-    "T3g": 40, "T3a-req": 40, "T4a": 50, "T4b": 5, "T4c": 50, "T4d": 50, "T4e": 3, "T4f": 8,
+    "T3g": 40, "T3a-req": 40, "T4a": 50, "T4b": 5, "T4c": 50, "T4d": 50, "T4e": 3, "T4f": 4,
     "T4g": 10, "T5": 8, "T3h": 50,
     # effect / ownership rules (write sites confirmed by reading conducting.py / machines.py)
-    "F1": 10, "F2": 10, "F3": 10, "F4": 8, "F5": 25, "F6": 3, "F7": 2, "F9": 200, "F10": 2, "F11": 1, "F8": 8, "O1": 30,
+    "F1": 10, "F2": 10, "F3": 10, "F4": 8, "F5": 25, "F6": 2, "F7": 1, "F9": 200, "F10": 1, "F11": 1, "F8": 8, "O1": 30,
     "O2": 6, "O3": 20, "S1": 20,
-    "X1": 5, "X2": 40, "X3": 6,
-    "P1": 3, "P2": 2, "P3": 5, "P4": 2, "P5": 3, "P6": 9, "P7": 5, "P8": 2, "P9": 1, "P10": 1, "P11": 1,
-    "E7": 30, "U1": 5, "S2": 12, "S3": 15, "G1": 6, "G2": 5, "G3": 8, "G4": 5, "S1b": 6, "M1": 2,
-    "N1": 25, "N2": 8, "O4": 3, "O5": 4, "O6": 2, "O7": 4, "V1": 10, "V2": 1, "S4": 1, "S5": 3, "S6": 10, "S7": 4, "S1c": 12,
+    "X1": 5, "X2": 40, "X3": 6, "X4": 1,
+    "P1": 3, "P2": 2, "P3": 5, "P4": 1, "P5": 2, "P6": 9, "P7": 5, "P8": 1, "P9": 1, "P10": 1, "P11": 1, "P12": 1,
+    "E7": 30, "U1": 5, "S2": 12, "S3": 15, "G1": 6, "G2": 5, "G3": 8, "G4": 5, "G5": 1, "S1b": 6, "M1": 1,
+    "N1": 25, "N2": 8, "O4": 2, "O5": 4, "O6": 1, "O7": 2, "V1": 10, "V2": 1, "S4": 1, "S5": 2, "S6": 10, "S7": 4, "S1c": 12,
 }
 
 PROPERTIES = {}
@@ -260,7 +260,7 @@ prop(
     "C11",
     anchor_modules=ENGINE_MODS + ["expressions.base", "expressions.yql", "expressions.jinja",
                                   "specs.native.v1.models"],
-    rules=[X.rule_X1, X.rule_X2, X.rule_X3, _t(T.rule_T3g), P.rule_P2],
+    rules=[X.rule_X1, X.rule_X2, X.rule_X3, X.rule_X4, _t(T.rule_T3g), P.rule_P2],
     controls=[K.ctl_narrow_next_tasks_handler, K.ctl_unwrap_criteria_try,
               K.ctl_unwrap_evaluator_try, K.ctl_handler_without_fail],
     explanation=(
@@ -368,7 +368,7 @@ prop(
     "C15",
     anchor_modules=TABLE_MODS + ["specs.base", "specs.native.v1.models", "composers.native"],
     rules=[_t(T.rule_T0), _t(T.rule_T1), _t(T.rule_T5), OPT.rule_E7, SC.rule_S2, SC.rule_S3,
-           SC.rule_S4, SC.rule_S5, SC.rule_S6, SC.rule_S7, OPT.rule_U1],
+           SC.rule_S4, SC.rule_S5, SC.rule_S6, SC.rule_S7, OPT.rule_U1, X.rule_X4],
     controls=[K.ctl_unguarded_staged_deref, K.ctl_unguarded_task_name, K.ctl_drop_detector,
               K.ctl_untracked_property, K.ctl_validate_prefilter,
               K.ctl_has_expressions_ignores_blocks],
@@ -396,8 +396,8 @@ prop(
 prop(
     "C17",
     anchor_modules=ENGINE_MODS,
-    rules=[_f6_rerun, _e7_rerun, E.rule_F4, E.rule_F11, P.rule_P11, G.rule_G1, G.rule_G2, G.rule_G3,
-           G.rule_G4,
+    rules=[_f6_rerun, _e7_rerun, E.rule_F4, E.rule_F11, P.rule_P11, P.rule_P12, G.rule_G1,
+           G.rule_G2, G.rule_G3, G.rule_G4, G.rule_G5,
            _t(T.rule_T3d, rows=("resuming",)), _t(T.rule_T3b, rows=("resuming",))],
     controls=[K.ctl_rerun_write_before_reject, K.ctl_unguarded_staged_deref,
               K.ctl_predicate_over_raw_sequence, K.ctl_mixed_identity,
@@ -414,7 +414,10 @@ prop(
         "reads every (id, route) pair from one record (G3) and tests 'already visited' before it "
         "records a descendant, so it does not stop at the direct children (G4); the status is "
         "forced to resuming only when the request selected something to rerun or continue (F11, "
-        "known finding D22). NOT decided: "
+        "known finding D22); the descendants of every rerun task lose their term flag under no "
+        "further condition (P12), the staged entry of the rerun task is un-completed (P11), and "
+        "'has a taken transition' is read from the values of the decision map, not from its "
+        "keys (G5). NOT decided: "
         "'re-executes exactly "
         "the requested tasks', convergence to the clean "
         "outcome, 'never stuck after an accepted rerun' (twin runs over histories)."),
